@@ -201,7 +201,10 @@ def _num(v):
 def snapshot(q):
     try:
         bu = q.baseunits.value()
-        return (_num(q.value()), q.units(), _num(q.abse()), {k: tuple(v) if isinstance(v, tuple) else v for k, v in bu.items()})
+        val, err = q.value(), q.abse()
+        if isinstance(val, np.ndarray) and err is not None and not isinstance(err, np.ndarray):
+            err = np.full_like(val, float(err), dtype=float)     # one uncertainty for all elements, reported either way
+        return (_num(val), q.units(), _num(err), {k: tuple(v) if isinstance(v, tuple) else v for k, v in bu.items()})
     except Exception as e:                      # an object that can no longer report its state has changed
         return ("#unreadable", type(e).__name__)
 
@@ -256,24 +259,40 @@ def replay_history(job):
                     if judged:
                         inplace = a["op"] in ("to", "rebase", "abse_set", "rele_set")
                         role = "x" if a["x"] == o else ("y" if a["y"] == o else "bystander")
+                        # is the change the one the transcribed machine predicts for this deviation?  (another change of
+                        # the same object is a different defect than the recorded one)
+                        names = fired.get(o, [])
+                        as_tr = bool(names) and s1[0] != "#unreadable" and s0[0] != "#unreadable"
+                        if as_tr:
+                            mu = A.ex_to_map(st["mu"][i])
+                            ou = {inv.get(u, u): e for u, e in s1[3].items()}
+                            ou = {u: (A.PyFrac(e[0], e[1]) if isinstance(e, (tuple, list)) else A.PyFrac(e)) for u, e in ou.items()}
+                            if names[0] in ("rhs_converted_in_place", "arg_converted_in_place", "operand_to_rad", "operand_to_none"):
+                                as_tr = ou == mu and same(s0[2], s1[2])
+                            elif names[0] == "log_operands_to_linear":
+                                as_tr = ou == mu and same(s0[1], s1[1]) and same(s0[2], s1[2])
+                            else:                                       # shared / mutated Magnitude: only the uncertainty moves
+                                as_tr = same(s0[0], s1[0]) and same(s0[1], s1[1]) and same(s0[3], s1[3])
                         out.append(("fail", dict(
                             step=k + 1, obj=o, role=role, op=a["op"],
                             clause=("an in-place method changes only the object it is called on" if inplace else
                                     "an operation leaves every operand reporting the same value, units and uncertainty"),
-                            failure="shared_state" if inplace else "operand_changed",
+                            failure=("shared_state" if inplace else "operand_changed") + (":as_transcribed" if as_tr else ""),
                             tags=[a["op"], "role:" + role] + sorted(fired.get(o, [])),
                             expected=s0, observed=s1)))
                 elif o in must and judged and "nan" not in json.dumps(s1):
                     out.append(("drift", f"machine predicts {fired[o]} on object {o} at step {k+1} of {brief(job)} but the object did not change"))
             snaps = new
             # ---- conformance of raising / result
-            expects_res = st["res"] > 0
+            expects_res = st["mres"] > 0
             got_res = isinstance(res, Quantity) and a["op"] not in ("to", "rebase", "abse_set", "rele_set")
-            if (raised is not None) != st["raises"] or expects_res != got_res:
+            if (raised is not None) != st["mraises"] or expects_res != got_res:
                 if judged:
-                    out.append(("raise_mismatch", f"{a['op']} on {brief(job)} step {k+1}: spec raises={st['raises']} result={expects_res}; "
+                    out.append(("raise_mismatch", f"{a['op']} on {brief(job)} step {k+1}: machine raises={st['mraises']} result={expects_res}; "
                                                   f"code raised={type(raised).__name__ if raised else None} result={got_res}"))
                 break
+            if (st["mres"] > 0) != (st["res"] > 0):
+                break                                   # the pinned machine has left the ideal: the history ends here
             if got_res:
                 objs.append(res)
                 snaps.append(snapshot(res))
